@@ -160,6 +160,7 @@ pub fn gen_input(rng: &mut Rng) -> Input {
         if rng.chance(45) {
             let mut opts = GenOpts::full();
             opts.max_stanzas = 2;
+            opts.syn_sets = false;
             let p = accepted_program(rng, &opts);
             supplied.extend(p.supplied.iter().cloned());
             preamble.extend(p.preamble.iter().cloned());
@@ -177,7 +178,10 @@ pub fn gen_input(rng: &mut Rng) -> Input {
         }
         6..=27 => {
             kind = "valid-generated";
-            let opts = GenOpts::full();
+            // no sets of several syntax nodes: their element order follows node addresses, which differ between
+            // parses of the same source (threads, processes) although the set is the same
+            let mut opts = GenOpts::full();
+            opts.syn_sets = false;
             let p = accepted_program(rng, &opts);
             supplied.extend(p.supplied.iter().cloned());
             preamble = p.preamble.clone();
